@@ -525,8 +525,37 @@ struct Gen {
       Sub s; *isResub = false;
       if (!c.subs.empty() && g.chance(35, 100)) { std::map<std::string, Sub>::iterator it = c.subs.begin(); std::advance(it, g.R((uint32)c.subs.size())); s = it->second; *isResub = true; }
       else { s = RandSub(); for (std::map<std::string, Sub>::iterator it = c.subs.begin(); it != c.subs.end(); ++it) if (it->second.canon == s.canon) { s = it->second; *isResub = true; break; } }
+      if (*isResub && g.chance(15, 100)) return s;                      // the same path with the same filter again
       s.hasFilter = g.chance(*isResub ? 60 : 45, 100); if (s.hasFilter) s.filter = GenFilter(g); else s.filter = RF();
       return s;
+   }
+   // how a re-subscription changes the filter of the existing entry
+   static const char * ChangeKind(const Sub & old, const Sub & now) { return (!old.hasFilter && !now.hasFilter) ? "same" : (!old.hasFilter) ? "added" : (!now.hasFilter) ? "removed" : (ShowRF(old.filter) == ShowRF(now.filter)) ? "same" : "different"; }
+   // PR_NAME_SUBSCRIBE_QUIETLY "disables initial-value-send from new subscriptions": on an EXISTING subscription whose filter changes the
+   // enter / leave notices are still owed, only the restating snapshot is not -- the mirror must converge, nothing is tainted.
+   // Dedicated operation with an exact view of the tree: counts the nodes on all four sides (selected before x selected after).
+   void QuietFilterChange()
+   {
+      std::vector<MC *> live = W.LiveClients(), cand; for (size_t i = 0; i < live.size(); i++) if (!live[i]->subs.empty() && !live[i]->dsub) cand.push_back(live[i]);
+      if (cand.empty()) return;
+      if (!W.Check("before a quiet filter change")) return;
+      MC & c = *cand[g.R((uint32)cand.size())]; std::map<std::string, Sub>::iterator it = c.subs.begin(); std::advance(it, g.R((uint32)c.subs.size()));
+      const Sub old = it->second; Sub s = old; const uint32 r = g.R(100);
+      if (r < 10) {} else if (r < 30 && old.hasFilter) { s.hasFilter = false; s.filter = RF(); } else { s.hasFilter = true; s.filter = (g.chance(1, 2) ? RFInt("v", (int)g.R(6), (int32)g.R(10)) : GenFilter(g)); }
+      long tt = 0, tf = 0, ft = 0, ff = 0, ftAlone = 0, tfAlone = 0;
+      for (std::map<std::string, std::string>::const_iterator t = W.truth.begin(); t != W.truth.end(); ++t) {
+         if ((!c.self && c.Own(t->first)) || !SubMatchesPath(old, t->first)) continue;
+         const bool before = SubSelects(old, t->first, t->second), after = SubSelects(s, t->first, t->second); bool other = false;
+         for (std::map<std::string, Sub>::const_iterator o = c.subs.begin(); o != c.subs.end(); ++o) if (o->first != old.name && SubSelects(o->second, t->first, t->second)) other = true;
+         if (before && after) tt++; else if (before) { tf++; if (!other) tfAlone++; } else if (after) { ft++; if (!other) ftAlone++; } else ff++;
+      }
+      const bool quiet = !g.chance(1, 6); std::vector<Sub> e; e.push_back(s); W.Send(c, W.MkSubscribe(c, e, -1, quiet));
+      W.Log(vh::fmt("c%d subscribe [%s]%s (again, filter %s)%s", c.no, s.name.c_str(), s.hasFilter ? (" f=" + ShowRF(s.filter)).c_str() : "", ChangeKind(old, s), quiet ? " QUIETLY" : ""));
+      vh::stat(std::string("resub|") + ChangeKind(old, s) + (quiet ? "|quiet" : "|loud")); vh::stat("cmd|subscribe"); vh::stat("cmd|resubscribe");
+      if (quiet) { vh::stat("quiet_filter_changes"); if (ft) vh::stat("quiet_filter_changes_with_nodes_entering_the_match_set"); if (ftAlone) vh::stat("quiet_filter_changes_with_nodes_entering_the_mirror"); if (tf) vh::stat("quiet_filter_changes_with_nodes_leaving_the_match_set"); if (tfAlone) vh::stat("quiet_filter_changes_with_nodes_leaving_the_mirror");
+                   if (tt) vh::stat("quiet_filter_changes_with_nodes_staying_in"); if (ff) vh::stat("quiet_filter_changes_with_nodes_staying_out"); if (tt && tf && ft && ff) vh::stat("quiet_filter_changes_with_nodes_on_all_four_sides"); }
+      else if (ft) vh::stat("loud_filter_changes_with_nodes_entering_the_match_set");
+      (void)W.Check(quiet ? "after a quiet filter change" : "after a filter change");
    }
    bool OverlapsOther(MC & c, const Sub & s)
    {
@@ -572,16 +601,20 @@ struct Gen {
          out.push_back(BuildRemove(keys, filt ? &f : NULL, false)); vh::stat("cmd|remove"); if (filt) vh::stat("cmd|remove_with_filter"); if (wild) vh::stat("cmd|remove_wildcard"); Cell("remove", filt, wild, W.anyOverlap);
       }
       else if (op < 72) {          // SETPARAMETERS with SUBSCRIBE: entries
-         const uint32 n = g.chance(80, 100) ? 1 : 2; std::vector<Sub> entries; desc = vh::fmt("c%d subscribe", c.no);
+         const uint32 n = g.chance(80, 100) ? 1 : 2; std::vector<Sub> entries; desc = vh::fmt("c%d subscribe", c.no); bool allResub = true; std::vector<const char *> kinds;
          for (uint32 i = 0; i < n; i++) {
             bool resub = false; Sub s = SubEntryFor(c, &resub); bool dup = false; for (size_t j = 0; j < entries.size(); j++) if (entries[j].canon == s.canon) dup = true; if (dup) continue;
             const bool o = OverlapsOther(c, s);
-            if (resub) { const Sub & old = c.subs[s.name]; vh::stat("cmd|resubscribe"); if (old.hasFilter != s.hasFilter || s.hasFilter) { vh::stat("cmd|resubscribe_with_other_filter"); if (o) vh::stat("cmd|resubscribe_with_other_filter_while_overlapping"); } }
+            allResub = allResub && resub;
+            if (resub) { const Sub & old = c.subs[s.name]; vh::stat("cmd|resubscribe"); kinds.push_back(ChangeKind(old, s)); if (old.hasFilter != s.hasFilter || s.hasFilter) { vh::stat("cmd|resubscribe_with_other_filter"); if (o) vh::stat("cmd|resubscribe_with_other_filter_while_overlapping"); } }
             entries.push_back(s); desc += " [" + s.name + "]" + (s.hasFilter ? " f=" + ShowRF(s.filter) : std::string()) + (resub ? " (again)" : "");
             Cell(resub ? "resubscribe" : "subscribe", s.hasFilter, s.wild, o);
          }
          int mx = -1; if (g.chance(20, 100)) { mx = g.chance(60, 100) ? 1 + (int)g.R(4) : 5 + (int)g.R(46); desc += vh::fmt(" !MxUp=%d", mx); vh::stat("cmd|max_update_items"); }
-         out.push_back(W.MkSubscribe(c, entries, mx, false)); vh::stat("cmd|subscribe");
+         // existing paths only: the quiet flag withholds nothing that is owed (see QuietFilterChange), so it belongs to the ordinary mix
+         const bool quiet = allResub && !entries.empty() && g.chance(35, 100); if (quiet) { desc += " QUIETLY"; vh::stat("cmd|resubscribe_quietly"); }
+         for (size_t i = 0; i < kinds.size(); i++) vh::stat(std::string("resub|") + kinds[i] + (quiet ? "|quiet" : "|loud"));
+         out.push_back(W.MkSubscribe(c, entries, mx, quiet)); vh::stat("cmd|subscribe");
       }
       else if (op < 80) {          // REMOVEPARAMETERS
          std::string key; const uint32 r = g.R(100); bool wild = false;
@@ -654,7 +687,7 @@ struct Gen {
       else { std::vector<MessageRef> v; W.MkRemoveParams(c, PR_NAME_DISABLE_SUBSCRIPTIONS, v); if (g.chance(2, 3)) W.MkResync(c, v); W.Send(c, v); W.Log(vh::fmt("c%d removes !Dsub", c.no)); vh::stat("cmd|enable_subscriptions"); assertSilent = false; }
       W.Settle(); W.ReadTruth();
       if (assertSilent) for (size_t i = 0; i < live.size(); i++) { MC & o = *live[i]; if (!o.Live() || o.c->readPaused) continue; if (o.mirror != before[o.no]) { W.Fail("quiet|operation_documented_as_silent_changed_a_mirror", vh::fmt("the mirror of c%d changed", o.no)); return; } vh::stat("quiet_operations_seen_silent"); }
-      if (isSub) { for (std::map<std::string, std::string>::const_iterator t = W.truth.begin(); t != W.truth.end(); ++t) if (SubMatchesPath(qs, t->first)) c.taint.insert(t->first); }
+      if (isSub) { if (assertSilent) for (std::map<std::string, std::string>::const_iterator t = W.truth.begin(); t != W.truth.end(); ++t) if (SubMatchesPath(qs, t->first)) c.taint.insert(t->first); }   // only a NEW quiet subscription withholds data
       else {   // every path whose presence or payload changed is stale everywhere
          std::set<std::string> changed;
          for (std::map<std::string, std::string>::const_iterator t = truth0.begin(); t != truth0.end(); ++t) { std::map<std::string, std::string>::const_iterator n = W.truth.find(t->first); if (n == W.truth.end() || n->second != t->second) changed.insert(t->first); }
@@ -715,6 +748,7 @@ struct Gen {
       if (op < 160) { Burst(); return; }
       if (op < 170) { SetTrees(); return; }
       if (op < 200) { Query(); return; }
+      if (op < 235) { QuietFilterChange(); return; }
       if (quietHistory && op < 290) { QuietOp(); return; }
       MC & c = *live[g.R((uint32)live.size())];
       if (op < 400) { std::string d = vh::fmt("c%d ", c.no); MessageRef b = RandomBatch(c, 1, d); W.Send(c, b); W.Log(d); vh::stat("cmd|batch"); return; }
@@ -865,6 +899,23 @@ static void Regress()
       S.W.Settle(); const bool holds = S.Holds(c, a, "a", 1); c.hazards.clear();
       S.Expect(holds, "filter_change_removal_overtakes_data_reply_of_same_command", "SUBSCRIBE:a changed to v>=5 (a has v=1) and SUBSCRIBE:* added in one SETPARAMETERS: c is sent a, then told a was removed; its mirror lacks a node that SUBSCRIBE:* selects");
       if (holds) S.Check("after the combined command");
+   }
+   vh::begin_case(10);
+   {  // PR_NAME_SUBSCRIBE_QUIETLY on an EXISTING subscription whose filter changes: enter and leave notices are still owed (only a new
+      // subscription's initial send is disabled); item_low must enter, item_high must leave, item_mid stays
+      Script S("quiet-filter-change"); MC & a = S.Join(); MC & c = S.Join();
+      S.Set(a, "item_low", 1); S.Set(a, "item_mid", 5); S.Set(a, "item_high", 9);
+      const RF lt3 = RFInt("v", OPC_LT, 3), gt3 = RFInt("v", OPC_GT, 3), lt7 = RFInt("v", OPC_LT, 7);
+      S.Sub_(c, "/*/*/item_*", &lt3); S.Check("v<3"); S.Expect(S.Holds(c, a, "item_low", 1) && c.mirror.size() == 1, "quiet_filter_change_setup", "v<3 must select item_low only");
+      S.Sub_(c, "/*/*/item_*", &gt3); S.Check("changed to v>3, not quiet"); S.Expect(S.Holds(c, a, "item_mid", 5) && S.Holds(c, a, "item_high", 9) && c.mirror.size() == 2, "quiet_filter_change_setup", "v>3 must select item_mid and item_high");
+      { Sub s = SubFromText("/*/*/item_*"); s.hasFilter = true; s.filter = lt7; std::vector<Sub> e; e.push_back(s); S.W.Send(c, S.W.MkSubscribe(c, e, -1, true)); S.W.Log("c1 subscribe [/*/*/item_*] f=(v<7) (again) QUIETLY"); S.W.Settle(); }
+      const bool low = S.Holds(c, a, "item_low", 1), mid = S.Holds(c, a, "item_mid", 5), high = S.Holds(c, a, "item_high");
+      S.Expect(low, "quiet_filter_change_enter_not_announced", "filter changed quietly from v>3 to v<7: item_low (v=1) entered the match set but the subscriber was not sent it");
+      S.Expect(!high, "quiet_filter_change_leave_not_announced", "filter changed quietly from v>3 to v<7: item_high (v=9) left the match set but the subscriber still holds it");
+      S.Expect(mid, "quiet_filter_change_lost_node", "item_mid (v=5) matches before and after");
+      S.Check("after the quiet filter change");
+      { Sub s = SubFromText("/*/*/item_*"); std::vector<Sub> e; e.push_back(s); S.W.Send(c, S.W.MkSubscribe(c, e, -1, true)); S.W.Log("c1 subscribe [/*/*/item_*] (again, filter removed) QUIETLY"); S.W.Settle(); }
+      S.Expect(S.Holds(c, a, "item_high", 9), "quiet_filter_change_enter_not_announced", "filter removed quietly: item_high must enter"); S.Check("after the quiet filter removal");
    }
    vh::distinct(1); vh::distinct(2); vh::distinct(3);
 }
